@@ -471,6 +471,7 @@ type CaseB struct {
 	Extra int    `json:"extra_data"` // bytes of extra data (v2; the length field is Extra+2)
 	ID6   bool   `json:"table_id_6"`
 	CRC   bool   `json:"crc32"`
+	Pad   bool   `json:"pad_ones"`
 	Rows  int    `json:"rows"`
 	PB    Pat    `json:"present_before"`
 	PA    Pat    `json:"present_after"`
@@ -486,6 +487,7 @@ type wireCfg struct {
 	Extra int
 	ID6   bool
 	CRC   bool
+	Pad   bool // unused high bits of every bitmap set to 1 (as a server leaves them after bitmap_set_all)
 }
 
 func allWireCfgs() []wireCfg {
@@ -496,6 +498,9 @@ func allWireCfgs() []wireCfg {
 			for _, x := range []int{0, 1, 8, 298} {
 				out = append(out, wireCfg{V2: true, Extra: x, ID6: id6, CRC: crc})
 			}
+			// padding bits set: one v1 and one v2 configuration per (checksum, id width)
+			out = append(out, wireCfg{V2: false, ID6: id6, CRC: crc, Pad: true})
+			out = append(out, wireCfg{V2: true, Extra: 0, ID6: id6, CRC: crc, Pad: true})
 		}
 	}
 	return out
@@ -506,16 +511,16 @@ func allWireCfgs() []wireCfg {
 func coverWireCfgs() []wireCfg {
 	return []wireCfg{
 		{V2: false, ID6: false, CRC: false},
-		{V2: false, ID6: true, CRC: true},
+		{V2: false, ID6: true, CRC: true, Pad: true},
 		{V2: true, Extra: 0, ID6: true, CRC: false},
-		{V2: true, Extra: 1, ID6: false, CRC: true},
+		{V2: true, Extra: 1, ID6: false, CRC: true, Pad: true},
 		{V2: true, Extra: 8, ID6: true, CRC: true},
 		{V2: true, Extra: 298, ID6: false, CRC: false},
 	}
 }
 
 func (wc wireCfg) cfg(seed int64) ref.Cfg {
-	c := ref.Cfg{RowsV2: wc.V2, TableID6: wc.ID6, ServerID: 7, ServerVer: "5.7.20-log"}
+	c := ref.Cfg{RowsV2: wc.V2, TableID6: wc.ID6, ServerID: 7, ServerVer: "5.7.20-log", PadOnes: wc.Pad}
 	if wc.CRC {
 		c.Checksum = ref.ChecksumCRC32
 	}
@@ -764,7 +769,7 @@ func image(cells []ref.Cell, present, nulls []bool, complement bool) ref.Image {
 
 func buildB(c CaseB) (*wireTM, ref.RowsEvent) {
 	s := shapeFor(c.N, c.Seed)
-	x := wireTMFor(wireCfg{V2: c.V2, Extra: c.Extra, ID6: c.ID6, CRC: c.CRC}, s, c.Seed)
+	x := wireTMFor(wireCfg{V2: c.V2, Extra: c.Extra, ID6: c.ID6, CRC: c.CRC, Pad: c.Pad}, s, c.Seed)
 	e := ref.RowsEvent{Kind: ref.RowKind(c.Kind), Table: s.table, Flags: 1}
 	pb, pa := c.PB.bits(c.N), c.PA.bits(c.N)
 	var nb, na []bool
@@ -919,7 +924,7 @@ func enumB(seed int64, counts []int, thorough bool, f func(CaseB)) {
 		}
 		ptAll := partners(n)
 		for _, wc := range pl.wcs {
-			base := CaseB{N: n, V2: wc.V2, Extra: wc.Extra, ID6: wc.ID6, CRC: wc.CRC, Seed: seed, PB: none, PA: none, NB: none, NA: none}
+			base := CaseB{N: n, V2: wc.V2, Extra: wc.Extra, ID6: wc.ID6, CRC: wc.CRC, Pad: wc.Pad, Seed: seed, PB: none, PA: none, NB: none, NA: none}
 			// ---- zero rows: only the presence bitmaps matter
 			c := base
 			for _, p := range ps.pats {
